@@ -55,6 +55,10 @@ claimed = {
          "Seeded histories of data commands of all types, SELECT, SWAPDB, FLUSHDB, FLUSHALL over databases drawn from {0,1,2,9,10,11,123}; after every step the dump of every database must equal the reference (nothing changed in a database that was not selected), the volatile-key index and LRU/LFU heaps of the other databases must be unchanged, SELECT must affect only the issuing connection and SWAPDB every TCP connection; persistence legs write multi-database datasets through TCP and embedded callers and compare whole dumps after an AOF restart and a snapshot restore.",
          "SWAPDB is checked for TCP connections existing when it is issued (SugarDB documents that the embedded caller is not swapped). The replication leg is C07's. Steps matching listed findings of the data-type models are filtered.",
          "DESIGN.md §3 C20"),
+ "C05": ("exploration", "same-build serial oracle over hook-controlled interleavings (command A parked at each of its keyspace steps while command B runs) + free-running multi-client stress under the Go race detector checked by porcupine linearizability, conservation counts and restart/snapshot-cut comparisons",
+         "Interleaving lane: every ordered pair of ~70 command instances (every write family and the readers observing it) with overlapping keys, A parked by the hook handler at each keyspace step k, B started meanwhile; replies and final whole-store dump must equal serial A;B or B;A computed on the same build (quick: a seed-dependent third of the pairs). Stress lane on a -race build: 8-12 clients (TCP and embedded) with unique values on shared counters, lists, sets, sorted sets, registers and multi-key pairs while SAVE, REWRITEAOF, the background expiry sampler and clock moves run; INCR/HINCRBY replies must be a gap-free set and match the final value, every inserted element must be removed exactly once or present exactly once, MGET must never see half an MSET, the register/counter history must be linearizable (porcupine), the AOF replay must equal the final dataset (log order = execution order) and a snapshot taken under writers must be a per-writer prefix; any process death, hang or race report in repository code is a violation.",
+         "Interleavings inside a single keyspace call are not enumerated (race detector covers the executions the stress produces); triples are not enumerated. 'B blocked' observations only steer the schedule. A watchdog firing is inconclusive except a stress process that makes no progress for 10 minutes.",
+         "DESIGN.md §3 C05"),
  "C01": ("exploration", "lock-step differential monitoring of the real handlers against an executable reference typed map (replies + whole-store dump after every step)",
          "Every sequence of depth <=2 (thorough: <=3) over an 80-command alphabet from 8 initial states, plus seeded random programs of 40-80 steps over binary/numeric/huge values, run on fresh instances; each step's strict-parsed reply must be allowed by the reference model and the side-effect-free dump of the store must equal the model state. Held on what was explored, not a proof.",
          "Trusts the verif-tagged dump (reads the store under its own lock), the injected virtual clock, and the reference model in harness/model (set-valued where statement and docs are silent). Inputs matching a listed known finding are filtered out of exploration and replayed by a witness lane.",
